@@ -128,8 +128,8 @@ func dataOfStore(st blobserver.Storage, br blob.Ref) ([]byte, bool) {
 	return d, true
 }
 
-func (lw *lower) smallRefs() []blob.Ref { return refsOfStore(lw.small) }
-func (lw *lower) largeRefs() []blob.Ref { return refsOfStore(lw.large) }
+func (lw *lower) smallRefs() []blob.Ref                { return refsOfStore(lw.small) }
+func (lw *lower) largeRefs() []blob.Ref                { return refsOfStore(lw.large) }
 func (lw *lower) smallData(br blob.Ref) ([]byte, bool) { return dataOfStore(lw.small, br) }
 func (lw *lower) largeData(br blob.Ref) ([]byte, bool) { return dataOfStore(lw.large, br) }
 
